@@ -186,6 +186,14 @@ package nilness
 //@   at call (*state).set#1 on "s.set(v, s.get(v.X))" assert [conv_ptr]   typeutil.IsPointerLike(v.X.Type())
 //@   at call (*state).setOuter#1 on "s.setOuter(v, NeverNil)" assert [conv_str] ok && (b.Info() & types.IsString) != 0
 //@   at call (*state).set#1 on "s.set(v, ValueNilness{MaybeNil, MaybeNil})" assert [conv_other] gam(arg2.Outer, 0) && gam(arg2.Outer, 1)
+// value-preserving operations (conversions between pointer-like types, type changes, interface
+// changes, zero-length slice-to-array-pointer conversions, slicing with all bounds zero) keep
+// nil-ness: what is recorded for the result must cover what is known of the operand
+//@   at call (*state).set on "^s.set(v, s.get(v.X))" assert [copy] arg1 == v && (forall c int :: (c == 0 || c == 1) && gam(val(s.m, v.X).Outer, c) ==> gam(arg2.Outer, c)) && (forall c int :: (c == 0 || c == 1) && gam(val(s.m, v.X).Inner, c) ==> gam(arg2.Inner, c))
+// boxing a value yields a non-nil interface whose inner nilness is the value's nilness
+//@   at call (*state).set on "^s.set(v, ValueNilness{" assert [box] arg1 == v && gam(arg2.Outer, 1) && (forall c int :: (c == 0 || c == 1) && gam(val(s.m, v.X).Outer, c) ==> gam(arg2.Inner, c))
+// a lookup yields the zero value (nil) for certain only if the map is nil
+//@   at call (*state).set on "^s.set(v, ValueNilness{AlwaysNil, AlwaysNil})" assert [nilmap] !gam(val(s.m, v.X).Outer, 1)
 //@   at call (*state).setOuter#1 on "s.setOuter(v.X, NeverNil)" assert [s2ap]       allNonZero
 //@   at call (*state).setOuter#2 on "s.setOuter(v.X, NeverNil)" assert [s2a]        allNonZero
 //@   at call (*state).setOuter#7 on "s.setOuter(v.X, NeverNil)" assert [typeassert] !v.CommaOk
